@@ -132,6 +132,9 @@ def run(tier):
 
 
 def replay(path):
+    from .common import Lock, stage_cargo
+    with Lock():
+        stage_cargo("c19")
     r = json.load(open(path))
     args = r.get("replay_args")
     if args:
